@@ -28,6 +28,7 @@ import (
 	"golang.org/x/telemetry/internal/verifsim/hlib"
 	"golang.org/x/telemetry/internal/verifsim/mgen"
 	"golang.org/x/telemetry/internal/verifsim/ref/refcal"
+	"golang.org/x/telemetry/internal/verifsim/ref/refformat"
 	"golang.org/x/telemetry/internal/verifsim/ref/refreport"
 	"golang.org/x/telemetry/internal/verifsim/simrt"
 )
@@ -376,7 +377,18 @@ func damageBytes(t *simrt.Tape, data []byte) {
 func (m *machine) checkNoInflation() {
 	for _, mf := range m.roundFiles {
 		if !mf.parseable {
-			return // a damaged file may yield garbage counts: totality only
+			// A file no reader of the layout can decode, or one that does not say
+			// when it ends, cannot have contributed to any week's report: the other
+			// files are judged. A file that only the strict decoder refuses may
+			// yield garbage counts for some week: totality only.
+			d, err := refformat.DecodeDoc(mf.data)
+			if err != nil {
+				continue
+			}
+			if _, terr := time.Parse(time.RFC3339, d.Meta["TimeEnd"]); terr != nil {
+				continue
+			}
+			return
 		}
 		if mf.dec != nil && !utf8.ValidString(mf.dec.MetaRaw) {
 			// damage turned a metadata byte into invalid UTF-8: the report's JSON
